@@ -793,7 +793,7 @@ def plan_exc(kind, k=0):
     if kind[0] == "GenExit":
         return CloseNow()
     if kind[0] == "inj":
-        return InjBase(kind[1]) if kind[2] else inj_class(k)(kind[1])
+        return InjBase(kind[1]) if kind[2] else inj_class(kind[3] if len(kind) > 3 else k)(kind[1])
     raise ValueError(kind)
 
 
@@ -843,6 +843,17 @@ def _run_impl(case, suspend=False, cancel_at=None, cancel_id=9, reply=False):
         toks = []
     states = [s.state() for s in srcs] if t.kind != "script" else [(False, 0, 0)]
     return {"outcome": res, "log": list(ctx.log), "states": states, "uses": ctx.uses, "srcs": srcs, "ctx": ctx, "obj": obj, "tokens": toks}
+
+
+def run_impl_sync_sources(case):
+    """the asyncstdlib tool over *synchronous* instrumented sources (plain iterators: no aclose, nothing suspends)"""
+    plan = case.plan
+    ctx = Ctx((plan[0], plan_exc(plan[1], plan[0])) if plan else None)
+    t = case.tool
+    srcs = [SSrc(ctx, i, items) for i, items in enumerate(case.srcs)]
+    obj = t.impl(ctx, srcs, suspend=False)
+    res = drive(run_agg(obj) if t.kind == "agg" else consume_async(ctx, obj))
+    return {"outcome": res, "log": list(ctx.log), "uses": ctx.uses, "ctx": ctx}
 
 
 def run_std(case, steps=None):
